@@ -442,6 +442,7 @@ class Sim:
     def plan_job_faults(self, faults):
         """faults: list of dicts {seam: solve|write|read|clock|abort, at: k, kind: ...}"""
         self._abort_at = None
+        self.tables.start_job()
         for f in faults or []:
             s = f["seam"]
             if s == "solve":
@@ -449,7 +450,10 @@ class Sim:
             elif s == "write":
                 self.fs.plan[len(self.fs.writes) + f["at"]] = (f["kind"], f.get("k", 10))
             elif s == "read":
-                self.tables.plan[self.tables.count + f["at"]] = f["kind"]
+                if "name" in f:
+                    self.tables.plan[(f["name"], f.get("nth", 0))] = f["kind"]
+                else:
+                    self.tables.plan[self.tables.count + f["at"]] = f["kind"]
             elif s == "clock":
                 import datetime as dt
 
